@@ -119,9 +119,11 @@ func (r *runner) monitor() {
 		now := time.Now().UnixNano()
 		r.mu.Lock()
 		for w := range r.active {
-			st := w.start.Load()
+			// read order ci, start, ci (begin stores cur before start, end zeroes
+			// start): a start time is only ever attributed to its own case
 			ci := w.cur.Load()
-			if st == 0 || ci == nil || ci == w.reported || time.Duration(now-st) < r.deadline {
+			st := w.start.Load()
+			if st == 0 || ci == nil || ci != w.cur.Load() || ci == w.reported || time.Duration(now-st) < r.deadline {
 				continue
 			}
 			w.reported = ci
